@@ -34,7 +34,11 @@ Bases == <<
   \* sums over products one of which is a prefix of the other, and sums over the same product with different ranges
   \* (the factor order must be total and computable for sort keys of different lengths)
   MT(<<ST(<<2>>, MT(<<P0(<<1>>, <<>>), P0(<<2>>, <<1>>), P0(<<3>>, <<1, 2>>)>>)), ST(<<2>>, MT(<<P0(<<1>>, <<>>), P0(<<2>>, <<1>>)>>)),
-       ST(<<1>>, MT(<<P0(<<1>>, <<>>), P0(<<2>>, <<1>>)>>)), P0(<<4>>, <<>>)>>)
+       ST(<<1>>, MT(<<P0(<<1>>, <<>>), P0(<<2>>, <<1>>)>>)), P0(<<4>>, <<>>)>>),
+  \* products whose factors include a bare sum next to a fraction (multiplication of a sum by a fraction is the one
+  \* product the DSL does not merge into a fraction, so folding factors in written order is not commutative there)
+  MT(<<ST(<<2>>, P0(<<1, 2>>, <<3>>)), FT(P0(<<3, 4>>, <<>>), P0(<<4>>, <<>>)), P0(<<4>>, <<1>>)>>),
+  MT(<<ST(<<1>>, P0(<<1>>, <<2>>)), FT(P0(<<2>>, <<>>), ST(<<2>>, P0(<<2, 3>>, <<>>)))>>)
 >>
 
 Permuted(s, q) == [i \in DOMAIN s |-> s[q[i]]]
